@@ -108,6 +108,11 @@ def run(e: Engine, rep: Report):
     from . import c03 as _c03
     _c03.r39(e, rep, 'R1.15')
     c11.n10(e, rep, 'R1.16')
+    rep.rule('R1.17', '= C03-R3.6: settled positions are positions in the '
+             'recipient list of the envelope at hand (not in the order the '
+             'relay reported its results)')
+    _c03.r36(e, rep, 'R1.17')
+    r118(e, rep)
     rep.floor('R1.2', 5, 'removal sites')
     rep.floor('R1.5', 3, 'backend uses of the index argument')
 
@@ -1023,3 +1028,57 @@ def r114(e: Engine, rep: Report, rule: str = 'R1.14'):
     if n < 5:
         rep.error('anchor vanished: record deletion sites of the backends '
                   '(%d < 5)' % n)
+
+
+# ------------------------------------------------------------------- R1.18
+def r118(e: Engine, rep: Report, rule: str = 'R1.18'):
+    """The queue decides by truthiness whether it has a relay at all (`if
+    self.relay and ...` before the first attempt, `if not self.relay:
+    return` in the scheduler).  A relay class that defines __len__ /
+    __bool__ (a backlog counter, say) is falsy whenever that is 0: mail is
+    accepted and stored, and never attempted."""
+    rep.rule(rule, 'the collaborators the queue tests by truthiness '
+             '(self.relay) have no __len__ / __bool__ in any relay class of '
+             'the repository: "no relay configured" is None, not "idle"')
+    from .c13 import truthiness_overloaded
+    qc = common.merged_class(e, QUEUE)
+    tests = []
+    for mname, m in sorted(qc.methods.items()):
+        for x in ast.walk(m.node):
+            conds = []
+            if isinstance(x, (ast.If, ast.While, ast.IfExp)):
+                conds = [x.test]
+            elif isinstance(x, ast.Assert):
+                conds = [x.test]
+            for c0 in conds:
+                parts = [c0]
+                while parts:
+                    y = parts.pop()
+                    if isinstance(y, ast.BoolOp):
+                        parts += y.values
+                    elif isinstance(y, ast.UnaryOp) and \
+                            isinstance(y.op, ast.Not):
+                        parts.append(y.operand)
+                    elif isinstance(y, ast.Attribute) and \
+                            ast.unparse(y) == 'self.relay':
+                        tests.append((m, y))
+    rep.evaluations += 1
+    if not tests:
+        rep.ok(rule, QUEUE, 'self.relay is not tested by truthiness',
+               reason='identity tests only')
+        return
+    bad = []
+    for cq in sorted(e.p.subclasses('slimta.relay.Relay')):
+        k = truthiness_overloaded(e, cq)
+        if k is not None:
+            bad.append((cq, k))
+    m, y = tests[0]
+    rep.check(not bad, rule, m.qname,
+              'truthiness of self.relay means "a relay is configured"',
+              '%s tests self.relay by truthiness, and %s gets __len__ / '
+              '__bool__ from %s: an idle relay counts as no relay - the '
+              'first attempt is skipped and the scheduler loop ends, '
+              'accepted mail stays in storage for ever' % (
+                  m.name, bad[0][0] if bad else '', bad[0][1] if bad else ''),
+              loc=m.loc(y), reason='%d truthiness tests; no relay class '
+              'overloads truthiness' % len(tests))
